@@ -122,6 +122,7 @@ type ownerStats struct {
 	byType      map[string]int64
 	handedOver  int64
 	structCheck int64
+	emb         [nEmbeddings]int64
 }
 
 // ---------------------------------------------------------------------------------------------
@@ -251,7 +252,8 @@ type oent[T any] struct {
 func ownerRound[T any](c *vkit.Case, vk valKind[T], nOwners, nOps int, ost *ownerStats) {
 	rnd := c.Rand
 	var M sync.Mutex // guards the list structure; the owners never take it
-	var l xlist.List[T]
+	emb := c.Index % nEmbeddings
+	l := newListIn[T](emb) // rotating embeddings (embed.go)
 	var model []oent[T]
 	shared := make([]*ownerShared[T], nOwners)
 	locals := make([]*ownerLocal[T], nOwners)
@@ -563,6 +565,7 @@ func ownerRound[T any](c *vkit.Case, vk valKind[T], nOwners, nOps int, ost *owne
 	ost.mu.Lock()
 	defer ost.mu.Unlock()
 	ost.rounds++
+	ost.emb[emb]++
 	ost.byType[vk.name]++
 	ost.acked += acked
 	for k := range localOps {
@@ -603,7 +606,7 @@ func runOwner(r *vkit.Report) {
 	r.Assume("the list structure (links, Len, ends) is only used under one mutex; owners touch nothing but Value")
 	r.SetExhaustive(false)
 	ost := &ownerStats{byType: make(map[string]int64)}
-	rounds := r.Scale(150, 600)
+	rounds := r.Scale(100, 300)
 	nOps := r.Scale(2500, 6000)
 	perType := make(map[string]*[nKinds][nRoles]int64)
 	r.Cases("owner", rounds, 1, func(c *vkit.Case) {
@@ -669,6 +672,9 @@ func runOwner(r *vkit.Report) {
 	r.Count("owner: totals", "nodes handed to an owner", int(ost.handedOver))
 	r.Count("owner: totals", "announcements acknowledged by the owner before the call", int(ost.acked))
 	r.Count("owner: totals", "link-only structure checks", int(ost.structCheck))
+	for x, v := range ost.emb {
+		r.Count("owner: rounds by how the list is held", embeddingNames[x], int(v))
+	}
 	r.Count("owner: totals", "GOMAXPROCS", runtime.GOMAXPROCS(0))
 	race := int64(0)
 	if vkit.RaceEnabled {
